@@ -192,7 +192,11 @@ fn cut(x: Option<usize>, b: usize) -> Option<usize> {
 
 pub fn check_graph(l: &mut Local, m: &Mat, rng: &mut Rng) {
     let g = Graph::new(m.rows, m.cols, &m.e);
-    let h = if rng.coin() { m.to_sparse() } else { m.to_sparse_shuffled(rng) };
+    let h = match rng.below(3) {
+        0 => m.to_sparse(),
+        1 => m.to_sparse_shuffled(rng),
+        _ => m.to_sparse_bulk(rng),
+    };
     let girth = g.girth();
     let mut d = Dig::new();
     d.u(m.rows as u64).u(m.cols as u64).entries(&m.e);
